@@ -225,7 +225,18 @@ class Repo:
         name, for receivers that are not ``self``."""
         recv_types = recv_types or {}
 
+        def is_generator(node):
+            nested = {id(x) for d_ in ast.walk(node) if isinstance(d_, (ast.FunctionDef, ast.Lambda)) and d_ is not node for x in ast.walk(d_)}
+            return any(isinstance(y, (ast.Yield, ast.YieldFrom)) and id(y) not in nested for y in ast.walk(node))
+
         def resolve(call, cur_cls, st):
+            r = resolve0(call, cur_cls, st)
+            # calling a generator function runs none of its statements: it is not expanded in place
+            if r is not None and is_generator(r[0]):
+                return None
+            return r
+
+        def resolve0(call, cur_cls, st):
             f = call.func
             if isinstance(f, ast.Attribute):
                 recv = f.value
